@@ -268,7 +268,7 @@ class DictDecoder:
             return dict(value)
 
         # Repeating element, recursively bind the values
-        if not recursive and var.list_element and isinstance(value, list):
+        if not recursive and var.list_element and collections.is_array(value):
             assert var.factory is not None
             return var.factory(
                 self.bind_value(meta, var, val, recursive=True) for val in value
@@ -320,11 +320,13 @@ class DictDecoder:
             # field can support any object return the value as it is
             return value
 
-        if isinstance(value, list) and any(val is None for val in value):
-            raise ParserError(
-                f"Invalid value for {meta.clazz.__qualname__}.{var.name}, "
-                f"a list of tokens can't include null"
-            )
+        if collections.is_array(value):
+            value = list(value)
+            if any(val is None for val in value):
+                raise ParserError(
+                    f"Invalid value for {meta.clazz.__qualname__}.{var.name}, "
+                    f"a list of tokens can't include null"
+                )
 
         value = converter.serialize(value)
 
